@@ -73,6 +73,24 @@ func histStarts(thorough bool) []histStart {
 			level := level
 			add(fmt.Sprintf("v%d %s nil receiver", ver, spec.LevelNames[level]), ver, level, func() any { return lib.Nil(ver, level) }, false, true, nil)
 			add(fmt.Sprintf("v%d %s fresh", ver, spec.LevelNames[level]), ver, level, func() any { return lib.New(ver, level) }, false, false, nil)
+			// decoders that failed at the very first element (version prefix / first token), at every level
+			for _, bad := range []string{"CVSS:4.0/AV:N", "CVS:3.1/AV:N", "", "XX:Y"} {
+				bad := bad
+				add(fmt.Sprintf("v%d %s left behind by failed %q", ver, spec.LevelNames[level], bad), ver, level, func() any {
+					recv := lib.New(ver, level)
+					lib.Decode(recv, bad)
+					return recv
+				}, false, false, nil)
+			}
+			// a decoder that succeeded, then failed on a second input
+			if s0 := seeds(ver)[0]; true {
+				add(fmt.Sprintf("v%d %s decoded %s, then failed on a bad version/first token", ver, spec.LevelNames[level], s0), ver, level, func() any {
+					recv := lib.New(ver, level)
+					lib.Decode(recv, s0)
+					lib.Decode(recv, "CVSS:4.0/AV:N")
+					return recv
+				}, false, false, nil)
+			}
 		}
 		vecs := seeds(ver)
 		if ver == 3 {
@@ -215,6 +233,10 @@ func histOps(thorough bool) []histOp {
 		{2, 2, "AV:N/AC:L/Au:N/C:N/I:N/A:C/E:F/RL:OF/RC:C/CDP:H/TD:H/CR:M/IR:M/AR:H"},
 		{2, 1, "AV:L/AC:M/Au:S/C:N/I:N/A:P/E:POC/RL:TF/RC:C"},
 		{2, 2, "AV:L/AC:M/Au:S/C:N/I:N/A:P/RC:C/E:POC"},
+		{3, 0, "CVSS:3.0/AV:L/AC:H/PR:H/UI:R/S:U/C:L/I:N/A:H"},
+		{3, 1, "CVSS:3.1/AV:A/AC:L/PR:L/UI:N/S:C/C:N/I:H/A:L/E:U/RL:T"},
+		{2, 0, "AV:A/AC:H/Au:M/C:C/I:P/A:N"},
+		{3, 2, "CVSS:3.1/AV:N/AC:L/PR:N/UI:R/S:C/C:H/I:L/A:N/MS:H"},
 	}
 	for _, d := range dvecs {
 		d := d
@@ -225,7 +247,41 @@ func histOps(thorough bool) []histOp {
 			}
 			return observables(o)
 		}})
+		ops = append(ops, histOp{name: fmt.Sprintf("decode-elsewhere through a nil receiver v%d/%s %s", d.ver, spec.LevelNames[d.level], d.s), kind: 'd', ok: always, run: func(any) string {
+			o, err, pan := lib.Decode(lib.Nil(d.ver, d.level), d.s)
+			if o == nil {
+				return fmt.Sprintf("rejected %s panic=%q", lib.Class(err), pan)
+			}
+			return observables(o)
+		}})
 	}
+	// mutations of the version label and of the embedded pointers
+	for _, vv := range []struct {
+		n string
+		v int
+	}{{"3.0", int(v3.V3_0)}, {"3.1", int(v3.V3_1)}, {"unknown", int(v3.VUnknown)}} {
+		vv := vv
+		ops = append(ops, histOp{name: "set Ver=" + vv.n, kind: 'm', ok: func(s *histStart) bool { return s.ver == 3 && !s.isNil }, run: func(o any) string { lib.SetV3Ver(o, vv.v); return "" }})
+	}
+	ops = append(ops, histOp{name: "replace the embedded lower-level object by that of another decoded vector", kind: 'm',
+		ok: func(s *histStart) bool { return !s.isNil && s.level >= 1 && (thorough || s.decoded) },
+		run: func(o any) string {
+			switch x := o.(type) {
+			case *v3.Temporal:
+				d, _ := v3.NewTemporal().Decode("CVSS:3.0/AV:P/AC:H/PR:H/UI:R/S:U/C:L/I:L/A:N/E:U")
+				x.Base = d.Base
+			case *v3.Environmental:
+				d, _ := v3.NewEnvironmental().Decode("CVSS:3.0/AV:P/AC:H/PR:H/UI:R/S:U/C:L/I:L/A:N/E:U/CR:L")
+				x.Temporal = d.Temporal
+			case *v2.Temporal:
+				d, _ := v2.NewTemporal().Decode("AV:L/AC:H/Au:M/C:P/I:N/A:N/E:U/RL:OF/RC:UC")
+				x.Base = d.Base
+			case *v2.Environmental:
+				d, _ := v2.NewEnvironmental().Decode("AV:L/AC:H/Au:M/C:P/I:N/A:N/E:U/RL:OF/RC:UC/CDP:L/TD:L/CR:L/IR:L/AR:L")
+				x.Temporal = d.Temporal
+			}
+			return ""
+		}})
 	// mutations: single exported fields
 	for _, ver := range []int{3, 2} {
 		ver := ver
